@@ -25,7 +25,9 @@ CLAIMS = {
   COMMON_NOTE + "As C01.", "DESIGN.md C02", "Lean 4 proof (Farkas soundness + driver invariant) with model/implementation correspondence check"),
  "C08": ("proof",
   "Partial (proof in layers). Proved in Lean: the number layer (every literal the writer can print is read back exactly by the scanner - C10's "
-  "scan_literal) and range_split (a ranged row and its two one-sided halves, which is how the LP writer renders it, have the same feasible set). Tied "
+  "scan_literal), the Bounds section as a codec (lp_bounds_roundtrip: for every lo <= up, integer column or not, the reader's setters + fill-in of defaults "
+  "applied to what write_bounds prints or omits give back the same bounds; the writer's side is compared with the real Bounds section of every generated file) "
+  "and range_split (a ranged row and its two one-sided halves, which is how the LP writer renders it, have the same feasible set). Tied "
   "to /repo end to end: named problems satisfying the precondition (all senses incl. range 0, all bound shapes, keyword-/exponent-/generated-looking "
   "names, integer marks, 20-90 column problems whose expressions wrap, plain/.gz/.bz2) are written by the real writer, read back by the real reader and "
   "compared by name as exact rationals; chains LP->MPS->LP; exact solves of original and read-back compared. The token-level emit/parse model of "
@@ -33,7 +35,8 @@ CLAIMS = {
   COMMON_NOTE + "Names needing repair by the writer are not generated.", "DESIGN.md C08",
   "Lean 4 proofs of the number and range layers + write/read-back correspondence check on the real code"),
  "C09": ("proof",
-  "As C08 for the MPS writer/reader: number layer and range semantics proved; write -> read-back -> compare by name incl. native RANGES (range 0 too), "
+  "As C08 for the MPS writer/reader: number layer, range semantics and the BOUNDS section codec (mps_bounds_roundtrip: FX/FR/MI/LO/PL/UP records with the "
+  "reader's first-definition-wins flags and default fill-in; writer side compared with every generated file) proved; write -> read-back -> compare by name incl. native RANGES (range 0 too), "
   "negative RHS, all bound records, integer markers, objective sense/name sections; chains MPS->LP->MPS and agreement of the LP and MPS renderings of "
   "one problem, on the real code.", COMMON_NOTE + "As C08.", "DESIGN.md C09",
   "Lean 4 proofs of the number and range layers + write/read-back correspondence check on the real code"),
@@ -120,8 +123,10 @@ CLAIMS = {
  "C17": ("proof",
   "Partial, and labelled so. Proved in Lean: the size bookkeeping of the growable per-row / per-column arrays (counts vs rowsize / colsize / structsize / matcolsize with lib.c's growth "
   "rule and the EXTRA_* constants re-extracted from the source on every run) - for every history of additions and deletions every write index lies inside the array as sized after the "
-  "growth step (invariant by induction over the history). Tied to /repo: counts and capacities of the real object are compared with the Cap model after every call of add-heavy and "
-  "mixed histories. NOT provable in a model and therefore observed, not proved: actual memory accesses, undefined behaviour, uninitialised reads and reproducibility are runtime "
+  "growth step (invariant by induction over the history); and the free-space accounting of the sparse column store: the guard delta < matfree of matrix_addrow keeps every write of its "
+  "in-place branch inside the array (and delta <= matfree would not), matrix_addcol and the move branch of matrix_addcoef write inside the array. Tied to /repo: counts and capacities of "
+  "the real object are compared with the Cap model after every call; the raw store arrays with the transliterated Store model (check C06), whose addrow steps are checked at run time "
+  "against the accounting abstraction; histories are steered to the boundaries delta = matfree, matfree +- 1. NOT provable in a model and therefore observed, not proved: actual memory accesses, undefined behaviour, uninitialised reads and reproducibility are runtime "
   "behaviour; a battery of multi-object interleavings, solves with warm restarts / tableau calls / file round trips, long edit histories and mutated LP / MPS inputs runs on the "
   "ASan+UBSan build (GMP memory malloc'ed), a subset under Valgrind memcheck on the plain build, and every transcript is re-executed on the plain build with allocator fill 0x55 / 0xAA "
   "(single arena) and with address-space randomisation off - all transcripts byte-identical. Every other property's check also runs on the sanitizer build.",
@@ -158,8 +163,10 @@ CLAIMS = {
  "C06": ("proof",
   "Reference model Spec of the editing API in Lean (24 call kinds incl. list/set/named variants, generated-name rule) with its guard and atomicity "
   "theorems; the real library is compared with Spec after EVERY operation of generated histories through the whole query API (counts, nzcount, "
-  "row-wise coefficients, rhs, sense, range, objective, bounds, objective sense, names, name->index, single coefficients). Partial: the refinement "
-  "proof Store (column store with relocation/compaction) to Spec is not finished, so conformance of the store itself rests on the correspondence run.",
+  "row-wise coefficients, rhs, sense, range, objective, bounds, objective sense, names, name->index, single coefficients). The raw column store "
+  "(matbeg/matcnt/matind, matsize/matfree, structmap, rowmap) is modelled too: Qsx.Store transliterates matrix_addrow/_addrow_end/_addcoef/_addcol, "
+  "delcols_work and the delete loops, and is compared field by field with the real arrays after every call; its free-space accounting is proved safe "
+  "(see C17). Partial: the abstraction theorem Store -> Spec (that the store represents the matrix Spec describes) is not proved, it is observed through both ties.",
   COMMON_NOTE + "Duplicate indices inside one added row/column are not generated. symtab.c hashing is modelled as a finite map.",
   "DESIGN.md C06", "Lean 4 reference model with proved guards + per-operation model/implementation correspondence check"),
  "C07": ("proof",
